@@ -78,10 +78,12 @@ class RuleChecker:
         violations: list[Violation] = []
 
         with suppress(KeyError):
-            dir_violations = self._check_directory_rules(
-                path_str, rel_path, fp_config["directories"]
-            )
+            directories = fp_config["directories"]
+            dir_violations = self._check_directory_rules(path_str, rel_path, directories)
             violations.extend(dir_violations)
+            # Directory overrides global: a file covered by a directory rule is judged by it alone
+            if self.directory_matcher.find_matching_rule(path_str, directories)[1] is not None:
+                return violations
 
         with suppress(KeyError):
             deny_violations = self._check_global_deny(path_str, rel_path, fp_config["global_deny"])
